@@ -14,12 +14,15 @@ import (
 
 // C17: static file handlers never serve outside their root.
 // (clean 'p)              obs: (clean 'path.Clean("/"+p))
-// (get kind 'rawpath)     kind: dir | files | fs | one ; obs: (get status <(in 'rel) | (out 'name) | (other n)>)
+// (get kind 'rawpath)     kind: dir | files | fs | one | dir2 | files2 ; obs: (get status <(in 'rel) | (in2 'rel) | (out 'name) | (other n)>)
+// dir2 / files2 are a second StaticDir / StaticFiles registration of the same router over ANOTHER root that holds files with
+// the same relative names: each registration must answer from its own root only
 
 var c17Once sync.Once
 var c17Root string
 var c17In = map[string]string{}  // content -> relative path under the root
 var c17Out = map[string]string{} // content -> name of a file outside the root
+var c17In2 = map[string]string{} // content -> relative path under the second root
 var c17Router *rux.Router
 
 func c17Setup() {
@@ -51,7 +54,17 @@ func c17Setup() {
 			_ = os.WriteFile(p, []byte(content), 0o644)
 			c17Out[content] = rel
 		}
+		root2 := filepath.Join(base, "pub2")
+		for _, rel := range []string{"a.css", "app.js", "sub/x.css", "sub/page.html", "readme.md", "index.html", "nodejs", "only2.js"} {
+			p := filepath.Join(root2, rel)
+			_ = os.MkdirAll(filepath.Dir(p), 0o755)
+			content := "SECOND-ROOT:" + rel
+			_ = os.WriteFile(p, []byte(content), 0o644)
+			c17In2[content] = rel
+		}
 		r := rux.New()
+		r.StaticDir("/static2", root2)
+		r.StaticFiles("/assets2", root2, "css|js")
 		r.StaticDir("/static", c17Root)
 		r.StaticFiles("/assets", c17Root, "css|js")
 		r.StaticFS("/fs", http.Dir(c17Root))
@@ -78,7 +91,7 @@ func c17Gen(r *Rng, tier string, i int) Sx {
 		}
 		return L(A("clean"), S(p))
 	}
-	kind := []string{"dir", "files", "fs", "one"}[r.Intn(4)]
+	kind := []string{"dir", "files", "fs", "one", "dir", "files", "dir2", "files2"}[r.Intn(8)]
 	if r.Chance(1, 2) {
 		// mostly-valid stream: a real file or directory, re-spelled with cancelling dot-dot pairs, "./", "//", a trailing slash,
 		// or an escape towards a sibling of the root
@@ -111,6 +124,10 @@ func c17Gen(r *Rng, tier string, i int) Sx {
 			}
 		}
 	}
+	if other, ok := map[string]string{"dir": "dir2", "files": "files2", "dir2": "dir", "files2": "files"}[kind]; ok && r.Bool() {
+		// the same relative path has just been served by the registration over the other root
+		return L(A("get"), A(kind), S("/"+p), A(other))
+	}
 	return L(A("get"), A(kind), S("/"+p))
 }
 
@@ -121,9 +138,18 @@ func c17Exec(c Sx) Sx {
 		return L(A("clean"), S(path.Clean("/"+c.List[1].Str())))
 	case "get":
 		kind, raw := c.List[1].Sym(), c.List[2].Str()
-		prefix := map[string]string{"dir": "/static", "files": "/assets", "fs": "/fs", "one": "/one"}[kind]
+		prefixes := map[string]string{"dir": "/static", "files": "/assets", "fs": "/fs", "one": "/one", "dir2": "/static2", "files2": "/assets2"}
+		prefix := prefixes[kind]
 		if prefix == "" {
 			panic("c17: bad kind")
+		}
+		if len(c.List) > 3 { // first the same path through the other registration
+			if pu, err := url.Parse("http://h" + prefixes[c.List[3].Sym()] + raw); err == nil {
+				func() {
+					defer func() { _ = recover() }()
+					c17Router.ServeHTTP(newRecWriter(nil), &http.Request{Method: "GET", URL: pu, Header: http.Header{}, Proto: "HTTP/1.1", ProtoMajor: 1, ProtoMinor: 1, Host: "h"})
+				}()
+			}
 		}
 		full := prefix + raw
 		if kind == "one" && raw == "/" {
@@ -153,6 +179,8 @@ func c17Exec(c Sx) Sx {
 		id := L(A("other"), I(len(body)))
 		if rel, ok := c17In[body]; ok {
 			id = L(A("in"), S(rel))
+		} else if rel, ok := c17In2[body]; ok {
+			id = L(A("in2"), S(rel))
 		} else if rel, ok := c17Out[body]; ok {
 			id = L(A("out"), S(rel))
 		} else {
